@@ -323,14 +323,14 @@ def _tree(tg, extra, acc, viol):
     run, tapecls, dom = tg.run, tg.tapecls, tg.domain
     N = len(dom)
     trip0 = _trip_count()
-    leaves, opens, n = expand(run, (), tg.base_calls + extra, tapecls)
+    leaves, opens, n = expand(run, (), tg.base_calls + extra, tapecls, None, 1 << 23)
     acc.count("evaluations", n)
     acc.count("tapes", len(leaves) + len(opens))
     if () in leaves and N > 1:
         viol("randfunc-ignored", "returned %r without consulting the supplied entropy source" % (leaves[()],))
         return
     if _trip_count() != trip0:
-        l2, o2, n = expand(run, (), tg.base_calls + extra, tapecls)
+        l2, o2, n = expand(run, (), tg.base_calls + extra, tapecls, None, 1 << 23)
         if l2 != leaves or o2 != opens:
             viol("not-a-function-of-the-tape", "the process-wide RNG was consulted and two enumerations of the same tapes differ")
             return
